@@ -56,8 +56,16 @@ def plan(tier, seed):
 
 
 class Subject:
-    def __init__(self, b, mi):
+    def __init__(self, b, mi, holder=None):
         self.b, self.mi = b, mi
+        self.holder = None
+        if holder:
+            # the subject lives inside another message, in a plain message field that is never assigned at first:
+            # operations are applied to the lazily created child in place (holder.child.member = ...), and the
+            # selection must also survive a round trip of the HOLDER
+            hmi = b.msgs[holder[0]]
+            self.holder_cls = b.bp_class(hmi.full_name)
+            self.h_attr = attr_names(self.holder_cls)[holder[1]]
         self.bp, self.ref = BP(b), REF(b)
         self.cls = b.bp_class(mi.full_name)
         self.names = attr_names(self.cls)
@@ -66,6 +74,9 @@ class Subject:
         self.sel = {g: None for g in mi.oneofs}
         self.val = {}
         self.bystanders = []
+        if holder:
+            self.holder = self.holder_cls()
+            self.m = getattr(self.holder, self.h_attr)
 
     # --- helpers
     def py(self, num, v):
@@ -151,8 +162,18 @@ class Subject:
             raise KeyError(k)
         return None
 
+    def sync_holder(self):
+        if self.holder is not None and getattr(self.holder, self.h_attr) is not self.m:
+            setattr(self.holder, self.h_attr, self.m)
+
     def observe(self):
         out = self._observe(self.m, self.sel, "")
+        if self.holder is not None and not out:
+            try:
+                h2 = self.holder_cls().parse(bytes(self.holder))
+                out += self._observe(getattr(h2, self.h_attr), self.sel, "via-holder:")
+            except Exception as e:
+                out.append(("holder-roundtrip-raised:" + type(e).__name__, "*", repr(e)))
         for obj, sel in self.bystanders:
             out += self._observe(obj, sel, "bystander:")
         return out
@@ -218,8 +239,10 @@ def op_kind(op) -> str:
 
 
 def run_history(b, mi, ops, res: Result, w_base):
-    s = Subject(b, mi)
+    s = Subject(b, mi, w_base.get("holder"))
     res.note("histories")
+    if w_base.get("holder"):
+        res.note("histories_inside_a_holder")
     res.distinct.add("|".join(op_kind(o) for o in ops) + "@" + mi.full_name)
     for i, op in enumerate(ops):
         w = dict(w_base, msg=mi.full_name, ops=[_op_json(o) for o in ops[: i + 1]])
@@ -232,6 +255,7 @@ def run_history(b, mi, ops, res: Result, w_base):
             return
         if r == "skipped":
             continue
+        s.sync_holder()
         res.note("ops_checked")
         res.note("op:" + op["op"])
         fails = s.observe()
@@ -429,8 +453,13 @@ def run_shard(shard) -> Result:
                 res.evaluations += 1
                 if pyd:
                     res.note("pydantic_histories")
+                wb = {"item": item, "opts": shard.get("opts", "")}
+                holders = [(h.full_name, f.number) for h in b.user_messages() for f in h.fields
+                           if f.label == "singular" and f.kind == "message" and f.type_name == mi.full_name and h.full_name != mi.full_name]
+                if holders and rng.random() < 0.4:
+                    wb["holder"] = list(rng.choice(holders))
                 try:
-                    run_history(b, mi, ops, res, {"item": item, "opts": shard.get("opts", "")})
+                    run_history(b, mi, ops, res, wb)
                 except Exception as e:
                     res.inconclusive.append(f"oracle crashed: {type(e).__name__}: {e}\n{traceback.format_exc()[-1200:]}")
                     break
@@ -453,7 +482,10 @@ def replay(w):
     try:
         monitors.install(CONTRACTS)
         mi = b.msgs[w["msg"]]
-        run_history(b, mi, [_op_from_json(o) for o in w["ops"]], res, {"item": w["item"], "opts": w.get("opts", "")})
+        wb = {"item": w["item"], "opts": w.get("opts", "")}
+        if w.get("holder"):
+            wb["holder"] = w["holder"]
+        run_history(b, mi, [_op_from_json(o) for o in w["ops"]], res, wb)
         monitors.drain(res, PROP)
     finally:
         b.cleanup()
